@@ -5,6 +5,7 @@ use std::collections::BTreeMap;
 
 pub use crate::api_description::ApiEndpointParameterMetadata;
 pub use crate::api_description::ApiSchemaGenerator;
+pub use crate::extractor::body_verif_hooks::streaming_body_into_bytes_mut;
 pub use crate::extractor::body_verif_hooks::streaming_body_new;
 pub use crate::http_util::http_extract_path_params;
 pub use crate::pagination::verif_hooks::deserialize_page_token;
